@@ -1,2 +1,110 @@
--- driver stub (not built yet)
-def main : IO Unit := pure ()
+import QmcModel.Proto
+import QmcModel.Basic
+import QmcModel.Rand
+import QmcModel.Cluster
+open Qmc Qmc.Proto
+
+/-- all bit patterns of length `k` -/
+def allBits : Nat → List (List Bool)
+  | 0 => [[]]
+  | k + 1 => (allBits k).flatMap fun t => [false :: t, true :: t]
+
+/-- the hypotheses of `clusterMove_weight`, checked on a table Hamiltonian for the ops present:
+non-edge, non-frozen ops sit on flip-symmetric bonds; edge ops on constant bonds -/
+def hypB (H : Ham) (fr : SkOp → Bool) (s : Slots) : Bool :=
+  (opsOf s).all fun o =>
+    let pats := allBits o.vars.length
+    if o.isEdge then
+      pats.all fun i => pats.all fun u => H.w o.bond i u == H.w o.bond o.ins o.outs
+    else if fr o.sk then true
+    else pats.all fun i => pats.all fun u => H.w o.bond (flipBits i) (flipBits u) == H.w o.bond i u
+
+def tagsB : Slots → Slots → Bool
+  | some ob :: tb, some oa :: ta => tagRuleB ob oa && tagsB tb ta
+  | _ :: tb, _ :: ta => tagsB tb ta
+  | _, _ => true
+
+def frOf (frozen : List Nat) : SkOp → Bool := fun o => frozen.contains o.bond
+
+def idleVars (sk : Skel) (n : Nat) : List Nat := (List.range n).filter fun v => !varHasOp sk v
+
+/-- put the idle variables of `a` back to their value in `b` (undo the free-spin refresh) -/
+def restoreIdle (sk : Skel) (sb sa : List Bool) : List Bool :=
+  (List.range sa.length).map fun v => if varHasOp sk v then sa.getD v false else sb.getD v false
+
+def b2s (b : Bool) : String := if b then "1" else "0"
+
+/-- `move <flip|step> <frozen bonds> <H> <stateB> <slotsB> <stateA> <slotsA> <draws>` →
+`<isClusterMove> <numClusters before> <numClusters after> <union of code clusters> <theorem hypotheses hold>
+ <weight product equal> <tag rule> <idle refresh as drawn> <flip count consistent with draws> <rng verdict>` -/
+def doMove (mode fz h sb slb sa sla dr : String) : String :=
+  let fr := frOf (parseNats fz)
+  let H := tableHam (parseTableHam h)
+  let b : Config := { state := parseBits sb, slots := parseSlots slb }
+  let a : Config := { state := parseBits sa, slots := parseSlots sla }
+  let draws := parseNats dr
+  let sk := skeleton b.slots
+  let nIdle := if mode == "step" then (idleVars sk b.state.length).length else 0
+  let nCl := draws.length - nIdle
+  let rs0 := RS.ofScript draws
+  let lab := clusterLabels sk
+  let ncl := numClusters sk
+  -- cluster draws (threshold ½ each; a cluster of weight 0 still consumes its word)
+  let (flips, rs1) := clusterFlips (1 / 2) (List.replicate ncl 1) rs0
+  -- free-spin refresh
+  let (idleOk, rs2, a0) :=
+    if mode == "step" then
+      let (st, rs2) := freeRefresh sk 0 a.state rs1
+      (st == a.state, rs2, { a with state := restoreIdle sk b.state a.state })
+    else (true, rs1, a)
+  let d := (legDiff b.slots a.slots).toArray
+  let nfl := (flippedClusters lab d).length
+  let nfz := (frozenClusters fr sk lab).length
+  let acc := (flips.filter id).length
+  let cntOk := nCl == ncl && acc ≤ nfl + nfz && nfl ≤ acc && (nfz != 0 || nfl == acc)
+  let out := [b2s (isClusterMove fr b a0), toString ncl, toString (numClusters (skeleton a.slots)),
+    b2s (unionOfClusters lab d), b2s (hypB H fr b.slots),
+    b2s (configWeightProd H a.slots == configWeightProd H b.slots), b2s (tagsB b.slots a.slots),
+    b2s idleOk, b2s cntOk, rs2.verdict]
+  String.intercalate " " out
+
+/-- `single <frozen bonds> <stateB> <slotsB> <n> <stateA_0> <slotsA_0> …` (draw `i` alone below the
+threshold) → `bij <#clusters that can flip> <#clusters of weight 0>` when every result flips exactly
+one distinct cluster or nothing, the number of results is `numClusters`, and the silent draws are as
+many as the clusters of weight 0; `bad:<why>` otherwise. -/
+def doSingle (fz sb slb : String) (n : Nat) (rest : List String) : String :=
+  let fr := frOf (parseNats fz)
+  let b : Config := { state := parseBits sb, slots := parseSlots slb }
+  let sk := skeleton b.slots
+  let lab := clusterLabels sk
+  let ncl := numClusters sk
+  let nfz := (frozenClusters fr sk lab).length
+  let rec go (rest : List String) (fuel : Nat) (seen : List Nat) (silent : Nat) : String :=
+    match fuel, rest with
+    | _, [] =>
+      if seen.length + silent != ncl then s!"bad:count{seen.length}+{silent}/{ncl}"
+      else if silent != nfz then s!"bad:silent{silent}/frozen{nfz}"
+      else s!"bij {seen.length} {silent}"
+    | fuel + 1, sa :: sla :: t =>
+      let a : Config := { state := parseBits sa, slots := parseSlots sla }
+      if !isClusterMove fr b a then "bad:notmove"
+      else
+        let d := (legDiff b.slots a.slots).toArray
+        if !unionOfClusters lab d then "bad:notunion"
+        else match flippedClusters lab d with
+          | [] => go t fuel seen (silent + 1)
+          | [c] =>
+            if seen.contains c then "bad:twice"
+            else if (frozenClusters fr sk lab).contains c then "bad:frozenflipped"
+            else go t fuel (c :: seen) silent
+          | _ => "bad:several"
+    | _, _ => "bad:parse"
+  if rest.length != 2 * n then "bad:arity" else go rest (n + 1) [] 0
+
+def step (toks : List String) : String :=
+  match toks with
+  | ["move", mode, fz, h, sb, slb, sa, sla, dr] => doMove mode fz h sb slb sa sla dr
+  | "single" :: fz :: sb :: slb :: n :: rest => doSingle fz sb slb (parseNat n) rest
+  | _ => "bad-op"
+
+def main : IO Unit := run step
